@@ -286,7 +286,7 @@ def build_input(tab, traces):
     names = [{'id': n, 'iso': [ord(c) for c in m['iso']], 'rr': [ord(c) for c in m['rr']],
               'jol': [ord(c) for c in m['jol']], 'udf': [ord(c) for c in m['udf']]}
              for n, m in sorted(tab.names.items()) if len(tab.names) <= 40 or n in used]
-    blobs = [{'id': b, 'len': len(tab.blobdata[b])} for b in sorted(tab.blobs)]
+    blobs = [{'id': b, 'len': tab.blob_len(b)} for b in sorted(tab.blobs)]
     return {'names': names, 'blobs': blobs, 'targets': sorted(tab.targets), 'obs': obs_list,
             'traces': out_tr}
 
